@@ -9,7 +9,8 @@ git apply /verif/seeded/$SEED/patch.diff || { echo "patch does not apply"; exit 
 cd /verif
 mkdir -p /tmp/seedruns
 LOG=/tmp/seedruns/$SEED.$PROP.log
-VERIF_NO_CACHE=0 ./check $PROP "$@" > $LOG 2>&1
+mkdir -p /tmp/seedruns/evidence
+VERIF_EVIDENCE_DIR=/tmp/seedruns/evidence VERIF_NO_CACHE=0 ./check $PROP "$@" > $LOG 2>&1
 rc=$?
 git -C /repo checkout -- .
 grep -E "^VIOLATION|^  harness=|^KNOWN|^INCONCLUSIVE|^SUMMARY" $LOG | cut -c1-260 | head -20
